@@ -18,7 +18,8 @@ EXPLANATION = (
     "features to the backend; (Q5) a new backend-request channel inherits reply-ack / shared-object / shmem from the acked "
     "protocol features and is handed to the backend; (Q6) ring operations read the current memory snapshot at each "
     "operation and signal the call descriptor installed at that moment; (Q7) the Mutex/RwLock/Arc backend adapters "
-    "delegate every method (C02/D3).")
+    "delegate every method (C02/D3)."
+    " Also: (Q3) every success path of SET_VRING_ADDR that installs the addresses sets next_used, GET_VRING_BASE's reply read from constructor or literal; (Q4) the subset test is, bit by bit, exactly features within backend.features() and the protocol-feature store is the acknowledged value; (Q7-Q9) C13/M3, C02/D3 for the ring adapters, C02/D2 for SET_FEATURES.")
 NOT_DECIDED = "Value ranges enforced inside virtio-queue (e.g. power-of-two sizes are silently ignored there), guest memory contents."
 
 PER_RING = ("set_vring_num", "set_vring_addr", "set_vring_base", "get_vring_base", "set_vring_kick", "set_vring_call",
